@@ -146,6 +146,8 @@ pub fn run(ctx: &Ctx) {
     // re-weighted: wide samples, heavy/bursty content
     let io = InOpts { heavy: true, wide_bias: true, ..Default::default() };
     ctx.search("stream-heavy", 16, per / 2, &|| stream_case_strategy(co, io, true), check);
+    // LPC stress: ill-conditioned predictors (i64 fallback, coefficient clamps, huge residuals)
+    ctx.search("lpc-stress", 16, per, &|| lpc_stress_case_strategy(), check);
     if ctx.tier == Tier::Thorough {
         let io = InOpts { budget: 120_000, ..Default::default() };
         ctx.search("stream-long", 16, 300, &|| stream_case_strategy(co, io, true), check);
